@@ -646,6 +646,71 @@ func hostileDocs(r *rand.Rand) []hostileInput {
 		add("extreme-import", []byte(fmt.Sprintf("$ion_symbol_table::{imports:[{name:\"big\",version:1,max_id:%d}],symbols:[\"q\"]} $%d $10 q $ion_symbol_table::{imports:$ion_symbol_table,symbols:[\"w\"]} $%d w", n>>1, n>>1, n>>1)))
 		add("extreme-import", []byte(fmt.Sprintf("$ion_symbol_table::{imports:[{name:\"a\",version:%d,max_id:%d},{name:\"a\",version:3,max_id:%d}]} $10 $11", n, n>>2, n>>2)))
 	}
+	// ids high inside a range that an import merely reserves, in every position an id can occur:
+	// legal, and nothing may be sized by the numeric value of an id
+	for _, n := range []int64{70000, 5_000_000, 40_000_000, 1 << 31, 1 << 40} {
+		add("high-reserved-id", []byte(fmt.Sprintf("$ion_symbol_table::{imports:[{name:\"x\",version:1,max_id:%d}]} {$%d:0} $%d $%d::$%d::1 [{$%d:{$%d:$%d}}] {$%d:1,$%d:2}", n+5, n, n, n, n-1, n, n-2, n-3, n, n+1)))
+		T := model.T
+		lst := model.StructV(model.ListV(model.StructV(model.StrV("x").WithField(T("name")), model.Int64V(1).WithField(T("version")), model.Int64V(n+5).WithField(T("max_id")))).WithField(T("imports"))).WithAnn(T("$ion_symbol_table"))
+		user := []*model.Value{
+			model.StructV(model.Int64V(0).WithField(model.SID(n))),
+			model.SymV(model.SID(n)),
+			model.Int64V(1).WithAnn(model.SID(n), model.SID(n-1)),
+			model.ListV(model.StructV(model.StructV(model.SymV(model.SID(n-3)).WithField(model.SID(n-2))).WithField(model.SID(n)))),
+		}
+		_ = user
+		tlv := func(t byte, body ...[]byte) []byte {
+			var b []byte
+			for _, x := range body {
+				b = append(b, x...)
+			}
+			if len(b) < 14 {
+				return append([]byte{t<<4 | byte(len(b))}, b...)
+			}
+			return append(append([]byte{t<<4 | 0x0E}, vu(uint64(len(b)))...), b...)
+		}
+		uintBytes := func(v uint64) []byte {
+			var b []byte
+			for ; v > 0; v >>= 8 {
+				b = append([]byte{byte(v)}, b...)
+			}
+			return b
+		}
+		e := refbin.NewEncoder(nil, nil)
+		e.AppendIVM()
+		e.Out = append(e.Out, e.Value(lst)...)
+		un := uint64(n)
+		e.Out = append(e.Out, tlv(0xD, vu(un), []byte{0x20})...)                                                   // {$n:0}
+		e.Out = append(e.Out, tlv(0x7, uintBytes(un))...)                                                         // $n
+		e.Out = append(e.Out, tlv(0xE, vu(uint64(len(vu(un))+len(vu(un-1)))), vu(un), vu(un-1), []byte{0x21, 1})...) // $n::$(n-1)::1
+		e.Out = append(e.Out, tlv(0xB, tlv(0xD, vu(un), tlv(0xD, vu(un-2), tlv(0x7, uintBytes(un-3)))))...)          // [{$n:{$(n-2):$(n-3)}}]
+		e.Out = append(e.Out, tlv(0xD, vu(un), []byte{0x21, 1}, vu(un+1), []byte{0x21, 2})...)                       // {$n:1,$(n+1):2}
+		if e.Err == nil {
+			add("high-reserved-id", e.Out)
+		}
+	}
+	// a child that declares 1 or 2 bytes more than its parent has left, in every length form (inline
+	// nibble, VarUInt, the sorted-struct form D1), under every kind of parent, followed by more input:
+	// the reader's position must never get past the end of a container
+	for _, over := range []int{1, 2} {
+		body := []byte{0x84, 0x20, 0x85, 0x20} // two struct fields / four bytes of anything
+		children := [][]byte{}
+		for _, t := range []byte{0x20, 0x30, 0x40, 0x50, 0x60, 0x70, 0x80, 0x90, 0xA0, 0xB0, 0xC0, 0xD0} {
+			children = append(children, append([]byte{t | byte(len(body)+over)}, body...))
+			children = append(children, append(append([]byte{t | 0x0E}, vu(uint64(len(body)+over))...), body...))
+		}
+		children = append(children, append(append([]byte{0xD1}, vu(uint64(len(body)+over))...), body...))
+		children = append(children, append([]byte{0xE0 | byte(len(body)+over), 0x81, 0x84}, 0x21, 0x01))
+		for _, ch := range children {
+			tail := []byte{0x21, 0x01, 0x20}
+			add("child-overruns-parent", bin([]byte{0xB0 | byte(len(ch))}, ch, tail))
+			add("child-overruns-parent", bin([]byte{0xC0 | byte(len(ch))}, ch, tail))
+			add("child-overruns-parent", bin([]byte{0xD0 | byte(len(ch)+1)}, []byte{0x84}, ch, tail))
+			add("child-overruns-parent", bin([]byte{0xDE}, vu(uint64(len(ch)+1)), []byte{0x84}, ch, tail))
+			add("child-overruns-parent", bin([]byte{0xE0 | byte(len(ch)+2)}, []byte{0x81, 0x84}, ch, tail))
+			add("child-overruns-parent", bin([]byte{0xB0 | byte(len(ch)+2)}, []byte{0xB0 | byte(len(ch))}, ch, []byte{0x20}, tail))
+		}
+	}
 	// decimal / timestamp exponents
 	for _, e := range []string{"2147483647", "-2147483648", "2147483648", "-2147483649", "9223372036854775807", "-9223372036854775808", "99999999999999999999", "1000000", "-1000000"} {
 		add("extreme-exponent", []byte("1d"+e+" -1.5d"+e+" 0d"+e))
